@@ -1,0 +1,32 @@
+//go:build verif
+
+package mqtt
+
+// Contracts for message copies (C20), packet identifiers (C15), subscription
+// bookkeeping (C08). Comments only; see verif_contracts_codec.go.
+
+//@ func (*Message).clone
+//@   mode int
+//@   props C20
+//@   pure
+//@   requires m != nil
+//@   ensures[C20] result != nil && fresh(result)
+//@   ensures[C20] result.Topic == m.Topic && result.QoS == m.QoS && result.Retain == m.Retain && result.Dup == m.Dup && result.ID == m.ID
+//@   ensures[C20] seqEq(seqOf(result.Payload), seqOf(m.Payload))
+//@   ensures[C20] len(m.Payload) > 0 ==> fresh(result.Payload)
+//@   ensures[C20] !sameArray(result.Payload, m.Payload) || len(m.Payload) == 0
+
+//@ func (*BaseClient).newID
+//@   mode bv
+//@   props C15
+//@   requires c != nil
+//@   assigns c.idLast
+//@   ensures[C15] result != 0
+//@   ensures[C15] evCount("sync/atomic.AddUint32") == 1
+//@   ensures[C15] evCount("(*BaseClient).newID") == 0 ==> result == uint16(evRet[uint32]("sync/atomic.AddUint32", 0, 0))
+//@   ensures[C15] evCount("(*BaseClient).newID") <= 1
+
+// Any 65535 consecutive values of the 32-bit counter have pairwise distinct low halves,
+// across wrap-around of both the 16-bit and the 32-bit value: two identifiers handed out
+// while fewer than 65536 counter steps lie between them are different.
+//@ lemma id_window[C15] mode bv forall a uint32, d uint32 :: 0 < d && d <= 65535 ==> uint16(a) != uint16(a+d)
